@@ -5,11 +5,8 @@ use crate::props::c04::{row_value, vehicle_strategy, RowSpec, VehicleSpec, DIST_
 use crate::refmodel::*;
 use geo::{Centroid, LineString};
 use proptest::prelude::*;
-use routee_compass::app::compass::config::frontier_model::road_class::road_class_parser::RoadClassParser;
-use routee_compass::plugin::input::default::edge_rtree::edge_rtree_input_plugin::EdgeRtreeInputPlugin;
-use routee_compass::plugin::input::default::vertex_rtree::plugin::RTreePlugin;
+use routee_compass::app::compass::config::builders::InputPluginBuilder;
 use routee_compass::plugin::input::input_plugin::InputPlugin;
-use routee_compass_core::model::unit::Distance;
 use serde::{Deserialize, Serialize};
 use serde_json::{json, Value};
 
@@ -142,6 +139,17 @@ fn coord_strategy() -> impl Strategy<Value = QCoord> {
     ]
 }
 
+/// tolerance as the configuration writes it; metres may be left implicit (the default unit)
+fn tolerance_keys(cfg: &mut serde_json::Map<String, serde_json::Value>, tolerance: Option<(f64, u8)>) {
+    if let Some((v, u)) = tolerance {
+        cfg.insert("distance_tolerance".into(), json!(v));
+        let implicit = u as usize % 5 == 0 && (v as u64) % 2 == 0;
+        if !implicit {
+            cfg.insert("distance_unit".into(), json!(DIST_NAMES[u as usize % 5]));
+        }
+    }
+}
+
 impl Prop for C16 {
     type Case = C16Case;
     fn id(&self) -> &'static str {
@@ -248,7 +256,7 @@ impl Prop for C16 {
         } else {
             o.label("no-tolerance");
         }
-        let plugin: Box<dyn InputPlugin> = if !is_edge {
+        let plugin: std::sync::Arc<dyn InputPlugin> = if !is_edge {
             let vp = dir.file("vertices.csv");
             let mut text = String::from("vertex_id,x,y\n");
             for (i, p) in cands.iter().enumerate() {
@@ -257,12 +265,13 @@ impl Prop for C16 {
             if write_text(&vp, &text, false).is_err() {
                 return o;
             }
-            match RTreePlugin::new(
-                &vp,
-                c.tolerance.map(|(v, _)| Distance::new(v)),
-                c.tolerance.map(|(_, u)| DISTANCE_UNITS[u as usize % 5]),
-            ) {
-                Ok(p) => Box::new(p),
+            // through the application's plugin builder (configuration JSON -> constructor)
+            let mut cfg = serde_json::Map::new();
+            cfg.insert("type".into(), json!("vertex_rtree"));
+            cfg.insert("vertices_input_file".into(), json!(vp.to_string_lossy().to_string()));
+            tolerance_keys(&mut cfg, c.tolerance);
+            match (routee_compass::plugin::input::default::vertex_rtree::builder::VertexRTreeBuilder {}).build(&serde_json::Value::Object(cfg)) {
+                Ok(p) => p,
                 Err(e) => {
                     o.fail("C16/vertex/build-error", json!({"error": e.to_string()}));
                     return o;
@@ -293,15 +302,18 @@ impl Prop for C16 {
                 let _ = write_text(&rp, &rt, false);
                 rp.to_string_lossy().to_string()
             });
-            match EdgeRtreeInputPlugin::new(
-                class_file,
-                restr_file,
-                gp.to_string_lossy().to_string(),
-                c.tolerance.map(|(v, _)| Distance::new(v)),
-                c.tolerance.map(|(_, u)| DISTANCE_UNITS[u as usize % 5]),
-                RoadClassParser::default(),
-            ) {
-                Ok(p) => Box::new(p),
+            let mut cfg = serde_json::Map::new();
+            cfg.insert("type".into(), json!("edge_rtree"));
+            cfg.insert("geometry_input_file".into(), json!(gp.to_string_lossy().to_string()));
+            if let Some(f) = class_file {
+                cfg.insert("road_class_input_file".into(), json!(f));
+            }
+            if let Some(f) = restr_file {
+                cfg.insert("vehicle_restriction_input_file".into(), json!(f));
+            }
+            tolerance_keys(&mut cfg, c.tolerance);
+            match (routee_compass::plugin::input::default::edge_rtree::edge_rtree_input_plugin_builder::EdgeRtreeInputPluginBuilder {}).build(&serde_json::Value::Object(cfg)) {
+                Ok(p) => p,
                 Err(e) => {
                     o.fail("C16/edge/build-error", json!({"error": e.to_string()}));
                     return o;
